@@ -144,7 +144,7 @@ def respell(args):
 
 class Case:
     __slots__ = ("args", "stdin", "endless", "rsched", "rintr", "rfail", "wfail", "wshort", "wintr",
-                 "efail", "flushfail", "files", "fifos", "efifos", "watchdog_ms", "use_dir")
+                 "efail", "flushfail", "files", "fifos", "efifos", "watchdog_ms", "use_dir", "wonce")
 
     def __init__(self, args=(), stdin=b"", **kw):
         self.args = list(args)
@@ -163,6 +163,7 @@ class Case:
         self.efifos = []         # (name, prefix, pre, post, cap)
         self.watchdog_ms = 0
         self.use_dir = False
+        self.wonce = False       # with wfail: the write error is transient (one failing call)
         for k, v in kw.items():
             setattr(self, k, v)
 
@@ -187,6 +188,8 @@ class Case:
             L.append("rfail %d" % self.rfail)
         if self.wfail is not None:
             L.append("wfail %d" % self.wfail)
+            if self.wonce:
+                L.append("wonce")
         if self.wshort:
             L.append("wshort " + ",".join(map(str, self.wshort)))
         if self.wintr:
